@@ -118,6 +118,7 @@ class Sim:
         self.tops = {}
         self.top_seen = set()
         self.top_rc = {}
+        self.top_promoted = set()
         self.violations = []
         self.notes = []
         self.sig = hashlib.sha1()
@@ -141,6 +142,7 @@ class Sim:
         self.obs_unreadable = 0
         self.want_obs = None
         self.recoveries = 0
+        self.refused_recoveries = 0
         self.recover_check = None
         self.complete_seen = 0
         self.complete_epochs = {}
@@ -525,6 +527,7 @@ class Sim:
                 if pid in self.rounds:
                     r = self.rounds[pid]
                     r["promoted"] = True
+                    self.top_promoted.add(r.get("top"))
                     r["ids0"] = list(o["ids"])
                     r["rows0"] = set(self._rows_on_disk())
                     r["canceled0"] = o["canceled"]
@@ -1229,6 +1232,11 @@ class Sim:
             o = self.observe("after recovery") or (self.obs[-1] if self.obs else None)
             made = len(self.sbatches) > rc[1]
             done = bool(o and o["complete"])
+            if rc[0] not in self.top_promoted:
+                # refused: another process held the role during this attempt; progress is that process's business
+                self.refused_recoveries += 1
+                self.recover_check = None
+                return
             if not made and not done and self.ff:
                 self.viol("C05", "recovery-no-progress", f"recovery round {rc[0]} (exit {self.top_rc[rc[0]]}) neither handed a batch to the HPC nor completed the submission")
             if not made and not done:
@@ -1285,6 +1293,12 @@ class Sim:
         self.spawn_top("submit", argv, "login")
         try:
             self.drive()
+            if not self.obs and self.top_rc.get("submit") not in (0, None) and not self.scen.get("expect_reject") and mode != "local":
+                try:
+                    tail = open(os.path.join(self.root, "top_submit.log")).read()[-400:]
+                except OSError:
+                    tail = ""
+                return self.result("harness: submit-jobs rejected the generated scenario: " + tail)
             if self.scen.get("resubmit"):
                 self.do_resubmit()
             self.final_checks()
